@@ -246,8 +246,9 @@ impl<const N: usize> UdpAssociateContext<N> {
                             let resolved_addr = match peer_addr.to_socket_addr() {
                                 Ok(addr) => addr,
                                 Err(e) => {
+                                    // this datagram cannot be delivered; the association serves other targets as before
                                     error!("[udp] DNS resolve failed; peer={peer_addr}, error={e}");
-                                    break;
+                                    continue;
                                 },
                             };
                             if !self.validate_packet_id(session.packet_id) {
@@ -258,7 +259,7 @@ impl<const N: usize> UdpAssociateContext<N> {
                             self.user.clone_from(&session.user);
                             if let Err(e) = self.outbound.send_to(&content, resolved_addr).await {
                                 error!("[udp] send peer failed; client={}, peer={}/{}, error={}", self.client_addr, peer_addr, resolved_addr, e);
-                                break;
+                                continue;
                             }
                         }
                         None => {
